@@ -274,7 +274,7 @@ const GRID_CTX_LABEL: [&str; 8] = [
 fn grid_lens() -> Vec<u64> {
     let mut v = Vec::new();
     for base in [0i128, 1 << 7, 1 << 14, 1 << 21, 1 << 28, 1 << 31, 1 << 32, 1 << 35, 1 << 40, 1 << 47, 1 << 56, 1 << 62, 1 << 63, 1 << 64] {
-        for d in -40i128..=40 {
+        for d in -24i128..=24 {
             let x = base + d;
             if (0..=u64::MAX as i128).contains(&x) {
                 v.push(x as u64);
@@ -502,7 +502,7 @@ fn main() {
         "Cases are structured values encoded to bytes: (grammar-onnx / grammar-free) trees of protobuf records following the ONNX \
          schema or no schema, with adversarial declared lengths (exact, +n, -n, values around 2^7..2^64, 2^64-k, 2^64-(own header)), \
          over-long and >10-byte varints, wire types 3/4/6/7, packed fields cut mid-varint; (len-grid, exhaustive) one adversarial \
-         length from {2^k + d : k in 0,7,14,21,28,31,32,35,40,47,56,62,63,64, |d|<=40} in each of 8 decoder contexts x {0,3,17} \
+         length from {2^k + d : k in 0,7,14,21,28,31,32,35,40,47,56,62,63,64, |d|<=24} in each of 8 decoder contexts x {0,3,17} \
          payload bytes present x 2 reader chunk sizes; (mutate) 0-3 structure-aware or byte-level mutations of mnist.onnx, \
          mnist-external and writer-made models; (truncate, exhaustive for small bases) prefixes of valid models; (roundtrip) \
          random valid models from the writer; (deep-nesting) chains of 1..N embedded graph-attribute / sequence-type messages up to \
@@ -543,7 +543,7 @@ fn main() {
     }
 
     // 2. grammar
-    let n = ck.pick(32_000, 3_000_000);
+    let n = ck.pick(24_000, 800_000);
     ck.prop("grammar-onnx", n, || (grammar::model_fields(4), 0u8..7).prop_map(|(recs, chunk)| GCase { recs, chunk }), grammar_oracle);
     ck.prop("grammar-free", n / 4, || (grammar::free_fields(), 0u8..7).prop_map(|(recs, chunk)| GCase { recs, chunk }), grammar_oracle);
 
@@ -551,7 +551,7 @@ fn main() {
     let n_bases = mutate::bases().len() as u8;
     ck.prop(
         "mutate",
-        ck.pick(16_000, 1_500_000),
+        ck.pick(12_000, 300_000),
         move || {
             let base = prop_oneof![5 => Just(0u8), 1 => Just(1u8), 6 => 2u8..n_bases];
             (base, proptest::collection::vec(mutate::mut_strategy(), 0..=3), 0u8..7).prop_map(|(base, muts, chunk)| MCase { base, muts, chunk })
@@ -564,7 +564,7 @@ fn main() {
         let bases = mutate::bases();
         let mut plan: Vec<(u8, u32)> = Vec::new();
         for (bi, b) in bases.iter().enumerate() {
-            let stride = if b.bytes.len() > 50_000 && !thorough { 23 } else { 1 };
+            let stride = if b.bytes.len() > 50_000 && !thorough { 47 } else { 1 };
             let mut c = 0;
             while c <= b.bytes.len() {
                 plan.push((bi as u8, c as u32));
@@ -605,7 +605,7 @@ fn main() {
     // 5. round trip of valid models
     ck.prop(
         "roundtrip",
-        ck.pick(6_000, 400_000),
+        ck.pick(4_000, 80_000),
         || (roundtrip::model_strategy(), 0u8..7).prop_map(|(model, chunk)| RCase { model, chunk }),
         roundtrip_oracle,
     );
